@@ -415,12 +415,12 @@ func check(prop, tier string, seed uint64, runsOverride int, workers int) int {
 	trouble := 0
 	for _, r := range results {
 		if r.out == nil {
-			if r.exitCode == 3 {
+			if r.exitCode == 3 && spinningInLibrary(r.stderr) == "" {
 				fmt.Fprintf(os.Stderr, "HARNESS TROUBLE: worker [%d,%d) hit the real-time watchdog (wedge or hang inside the simulator):\n%s\n", r.from, r.to, tail(r.stderr, 6000))
 				trouble++
 				continue
 			}
-			if r.exitCode == 4 {
+			if r.exitCode == 4 || r.exitCode == 3 {
 				// no run completed for more than a minute of real time and the in-process watchdog did not fire: some
 				// goroutine is spinning. If it spins in library code (frames under /repo/), that is the library hanging.
 				idx := r.from
